@@ -160,7 +160,9 @@ PROPS["C01"] = dict(
     jobs=[Job("adf", 1200, 40000, size=6, size_thorough=7, extra=("sem",),
               relevant=heads("build", "adopt", "grounded", "adump", "wfcheck"), nontrivial=nt_adf),
           Job("adf", 0, 1, size=2, extra=("exh2",), relevant=heads("build", "adopt", "grounded", "adump", "wfcheck"), nontrivial=lambda st: True, label="exhaustive-2-statements"),
-          Job("adf", 120, 4000, size=90, size_thorough=130, extra=("wide",), relevant=heads("build", "adopt", "grounded", "adump", "wfcheck"), nontrivial=lambda st: int(st.get("n", 0)) >= 65, label="wide")],
+          Job("adf", 120, 4000, size=90, size_thorough=130, extra=("wide",), relevant=heads("build", "adopt", "grounded", "adump", "wfcheck"), nontrivial=lambda st: int(st.get("n", 0)) >= 65, label="wide"),
+          Job("adf", 16, 300, size=300, size_thorough=340, extra=("wider",), relevant=heads("build", "adopt", "grounded", "adump", "wfcheck"), nontrivial=lambda st: int(st.get("n", 0)) >= 257,
+              label="wider-than-a-byte", chunk_min=2, cap=64)],
     rule=SEM_RULE,
     assumptions=["well-formed ADFs (every statement declared with exactly one ac, atoms declared); <= 2^16 statements for biodivine"],
 )
@@ -228,7 +230,9 @@ PROPS["C04"] = dict(
     jobs=[Job("adf", 1500, 60000, size=6, size_thorough=7, extra=("count",),
               relevant=heads("build", "adopt", "stmca", "stmcb", "adump", "wfcheck"), nontrivial=nt_adf),
           Job("adf", 0, 1, size=2, extra=("exh2",), relevant=heads("build", "adopt", "stmca", "stmcb", "adump", "wfcheck"), nontrivial=lambda st: True, label="exhaustive-2-statements"),
-          Job("adf", 120, 4000, size=90, size_thorough=130, extra=("wide",), relevant=heads("build", "adopt", "stmca", "stmcb", "adump", "wfcheck"), nontrivial=lambda st: int(st.get("n", 0)) >= 65, label="wide")],
+          Job("adf", 120, 4000, size=90, size_thorough=130, extra=("wide",), relevant=heads("build", "adopt", "stmca", "stmcb", "adump", "wfcheck"), nontrivial=lambda st: int(st.get("n", 0)) >= 65, label="wide"),
+          Job("adf", 250, 8000, size=0, extra=("many",), relevant=heads("build", "adopt", "stmca", "stmcb", "adump", "wfcheck"), nontrivial=lambda st: int(st.get("n", 0)) >= 8,
+              label="many-candidates", chunk_min=20)],
     rule=ADF_GEN + "stable_count_optimisation_heu_a/b on native, hybrid and pre-grounded hybrid objects in both call orders; emitted vectors (in order) and node tables compared with the Lean model, "
          "the multiset of answers with Spec.stableAll; non-trivial = distinct ADF with >= 2 statements and >= 5 nodes",
     assumptions=["well-formed ADFs"],
@@ -251,7 +255,11 @@ PROPS["C05"] = dict(
     jobs=[Job("adf", 700, 30000, size=6, size_thorough=7, extra=("ng",), timeout=300,
               relevant=heads("build", "adopt", "ng", "ngch", "ngbig", "adump", "wfcheck"), nontrivial=nt_adf),
           Job("adf", 0, 1, size=2, extra=("exh2",), relevant=heads("build", "adopt", "ng", "adump", "wfcheck"), nontrivial=lambda st: True, label="exhaustive-2-statements", timeout=300),
-          Job("adf", 120, 4000, size=90, size_thorough=130, extra=("wide",), relevant=heads("build", "adopt", "ng", "adump", "wfcheck"), nontrivial=lambda st: int(st.get("n", 0)) >= 65, label="wide", timeout=600)],
+          Job("adf", 120, 4000, size=90, size_thorough=130, extra=("wide",), relevant=heads("build", "adopt", "ng", "adump", "wfcheck"), nontrivial=lambda st: int(st.get("n", 0)) >= 65, label="wide", timeout=600),
+          Job("adf", 120, 4000, size=0, extra=("many",), relevant=heads("build", "adopt", "ng", "adump", "wfcheck"), nontrivial=lambda st: int(st.get("n", 0)) >= 8,
+              label="many-models", chunk_min=20, timeout=600),
+          Job("adf", 4, 200, size=62, extra=("parity",), fsets=("default-oc", "default"), relevant=heads("ngparity"), nontrivial=lambda st: True,
+              label="parity-path-counts-near-the-word-size", chunk_min=1, cap=40, timeout=900)],
     rule=ADF_GEN + "stable_nogood / two_val_nogood_channel / stable_nogood_channel with Simple, both counting heuristics, 4 scripted custom heuristics (PRNG-chosen undecided statement and value per call, "
          "trace logged) and 3 Rand seeds per ADF, on native and bridged objects; outputs in order + traces + node tables vs the Lean model, multisets vs Spec; non-trivial = distinct ADF with >= 2 statements and >= 5 nodes",
     assumptions=["well-formed ADFs; custom heuristics always propose an undecided statement with a truth value"],
@@ -270,7 +278,9 @@ PROPS["C09"] = dict(
               nontrivial=lambda st: int(st.get("n", 0)) >= 20 and int(st.get("nodes", 0)) >= 50, label="adf-large"),
           Job("adf", 800, 30000, size=6, size_thorough=7, extra=("sem",), relevant=heads("build", "adopt", "adump", "wfcheck"), nontrivial=nt_adf, label="adf-small"),
           Job("adf", 150, 5000, size=6, extra=("present",), relevant=heads("presented"), nontrivial=nt_adf, label="adf-orders"),
-          Job("adf", 6, 60, size=2, extra=("deep",), needs_bins=True, relevant=heads("clideep"), nontrivial=lambda st: int(st.get("deep", 0)) >= 50, label="deep-nesting", timeout=600)],
+          Job("adf", 6, 60, size=2, extra=("deep",), needs_bins=True, relevant=heads("clideep"), nontrivial=lambda st: int(st.get("deep", 0)) >= 50, label="deep-nesting", timeout=600),
+          Job("adf", 12, 300, size=300, size_thorough=340, extra=("wider",), relevant=heads("build", "adopt", "adump", "wfcheck"), nontrivial=lambda st: int(st.get("n", 0)) >= 257,
+              label="wider-than-a-byte", chunk_min=2, cap=64)],
     rule="large ADFs (24-48 statements, formula depth 5-11, diagrams up to thousands of nodes): native build handle-exact vs model, bridged and pre-grounded stores validated by wfCheck + isoCheck; "
          "small ADFs additionally by truth table; permuted fact orders x {none, lx, an} sorting: condition handles per statement vs the model under the same order; "
          "non-trivial = distinct ADF (large: >= 20 statements and >= 50 nodes)",
@@ -572,14 +582,16 @@ ROUND2 = {
  "C09": " Round 2: hybrid_import_function replaces the definitional pregrounded_function: every bridged handle of the model of hybrid_step_opt denotes the statement's condition (opt=false) resp. the condition restricted by the least fixpoint (opt=true); bridge_ignores_terminal_entries (the first two dump entries are never read, as in from_biodivine_vector).",
  "C11": " CALL HISTORIES ON ONE OBJECT (round 2): inductive Call (grounded, complete, stable, pre-filter, both counting searches, nogood search in both modes with every heuristic, count/path/dependency queries, extra formulas) and runCalls over the definitions the driver runs; "
         "history_invariant (after any history: store well formed, ac unchanged, every issued handle unchanged with the same function, node table only grown), answers_history_independent (answer of any call after any history = answer on the fresh object; sets with Nodup, complete: grounded first; queries: equal numbers), "
-        "ng_halts_after_history, answers_memo_independent_partial (answers IN ORDER and node tables do not depend on memo contents; proved for all calls except the two searches, full statement kept as def).",
+        "ng_halts_after_history, answers_memo_independent (answers IN ORDER - vectors, handle numbers, heuristic trace - and node tables do not depend on the memo contents, for EVERY call kind incl. both searches: lock-step lemmas GK.search_lock / countAll_lock / ngSearch_lock), answers_depend_on_node_table, answers_memo_dropped_midway, answers_reimport_midway (dropping the memo tables or a serde export/import in the middle of a history changes no later answer nor its order).",
  "C12": " SEMANTICS UNDER EVERY FEATURE SET (round 2): semantics_feature_independent - simulation Rel between the configured store (any Cfg, any origin) and the reference store: grounded, complete, stable, both counting searches and the nogood search (every heuristic, mode, fuel; trace and halting flag) return the same vectors handle for handle; "
         "cli_sections_feature_independent (all nine CLI sections); frontend is now READ by the model: frontend_channel (with a sender attached the log is exactly the created nodes in creation order, answers unchanged), no_sender_no_log; cubes_impacts_feature_independent, restrict_feature_independent_total, answers_after_import (the models exception stated exactly), import_without_fix.",
  "C13": " Round 2: cubes_exact (one statement for EVERY handle: disjoint, sound, consistent with the goal variable, covering exactly for non-terminals; empty for the two constants = the documented reading), impacts restated against Essential (no definitional conjunct), more_models_iff against counts of satisfying assignments, more_models_word_iff for the 64-bit arithmetic.",
  "C14": " Round 2: instantiated answers after both round trips - complete_after_roundtrip, stable_after_roundtrip, count_search_after_roundtrip, nogood_search_after_roundtrip, grounded_after_rebuild; concrete decimal codec (simplified_roundtrip_decimal, no codec hypothesis).",
  "C15": " THREE DIFFERENT ARMS FROM THE TEXT (round 2): CliM.runText models main.rs per arm (parse, --lx/--an sorting before building, naive = from_parser + native sections; biodivine = library-side from_parser + Bio.bioGrounded/bioComplete/bioStable/bioStableRep; hybrid = library grounding, dump, bridge, native sections) with PrintableInterpretation's rendering; "
         "cli_text_faithful (every well-formed text, every mode/flags/sorting/heuristic: exit 0, one block per requested implemented section in documented order, each block a permutation of the specification's answer), three_modes_print_same_sets (now between three different computations), line_format / mark_is_value, lx_prints_in_bytewise_order, "
-        "rejects_malformed_text, naive_arm_is_driver_model (the naive arm IS the Cli.run the driver executes against the binary), library_arms_panic_on_special_labels (model-level statement of known finding D6; the library arms carry the hypothesis bioNameOK). The two vacuous theorems of round 1 are deleted.",
+        "rejects_malformed_text, naive_arm_is_driver_model (the naive arm IS the Cli.run the driver executes against the binary), library_arms_panic_on_special_labels (model-level statement of known finding D6; the library arms carry the hypothesis bioNameOK). The two vacuous theorems of round 1 are deleted. TIE OF ALL THREE ARMS: the driver now runs CliM.runText on the exact TEXT handed to the binary (clirun carries it) in a concrete world (CliM.drvWorld: tagged truth-table library, generic node dump Bio.ttDump, the natural_lexical_cmp sort written down), "
+        "so the biodivine arm (Bio.bioComplete/bioStable/...) and the hybrid arm (library grounding, dump, bridge, native sections) of the MODEL are compared with the corresponding arm of the real binary, line for line as printed (printed= channel; up to 10 statements, above that the round-1 path); "
+        "driver_world_faithful / driver_world_three_modes instantiate the theorems at exactly that world (drvWorldOK, drvWorld_dump, Bio.ttDump_spec), so no assumption about an external world remains for what the driver runs; the unsatisfiable form of the dump hypothesis (DumpOKW over all variable counts) was found and corrected. --counter modelled (CliCounter).",
  "C16": " THE SERVICE, NOT ONLY THE LIBRARY (round 2): the server model's environment is instantiated with the concrete library models (SrvC.libEnv, ONE definition shared by the driver and the theorems); parse_task_stores_framework / _error, solve_request_uses_stored_framework, "
         "solve_task_stores_answer (the write of a solve task stores exactly the library model's answer for the STORED framework under the addressed problem and strategy), write_touches_only_its_target, get_returns_stored, served_answer_for_code (what GET shows under a strategy is the definitional answer for the submitted code, all six strategies), "
         "storage_roundtrip_identity + solve_after_roundtrip_same (SimplifiedAdf round trip is the identity on ordering, node table and ac), graph_hyp_of_accepted_text (graph hypotheses DERIVED from parser facts), graphs_faithful_under_the_shown_model (all six strategies), "
